@@ -76,6 +76,10 @@ def _set_aggregates(resource_provider, aggregate_uuids,
     except db_exc.DBDuplicateEntry as exc:
         raise webob.exc.HTTPConflict(
             'Update conflict: %(error)s' % {'error': exc})
+    except exception.NotFound:
+        # Deleted by another request since it was loaded by the caller.
+        raise webob.exc.HTTPNotFound(
+            'No resource provider with uuid %s found' % resource_provider.uuid)
 
 
 @wsgi_wrapper.PlacementWsgify
